@@ -27,53 +27,7 @@
 (*            longer registered, at most one reader holds a given id, and its  *)
 (*            reply channel is still empty (so the delivery cannot block and   *)
 (*            the channel never holds two items).                              *)
-EXTENDS LiteClient, SequenceTheorems, TLAPS
-
-ASSUME ConstAssump == NConns \in Nat /\ Unknown \notin Calls
-
-Vals    == Calls \cup {Unknown}
-PcSet   == {"start", "reg", "picked", "wait", "unreg", "done"}
-RetVals == {<<"none">>, <<"timeout">>, <<"senderr">>, <<"notconnected">>} \cup {<<"answer", v>> : v \in Vals}
-Fins    == {"open", "srv", "cli"}
-PSts    == {"new", "run", "stuck", "dead"}
-RSts    == {"new", "run", "offer", "rc", "dial", "dead"}
-LinkRec == [in : Seq(Pkts), fin : Fins, out : SUBSET Calls, pend : SUBSET Calls, rst : BOOLEAN,
-            p : PSts, r : RSts, rh : Pkts]
-ClrRec  == [st : {"idle", "got", "found"}, pkt : Pkts]
-
-TypeInv ==
-  /\ pc \in [Calls -> PcSet]
-  /\ conn \in [Calls -> Nat]
-  /\ \A c \in Calls : pc[c] = "picked" => conn[c] \in Conns
-  /\ ret \in [Calls -> RetVals]
-  /\ queries \subseteq Calls
-  /\ chans \in [Calls -> Seq(Vals)]
-  /\ status \in [Conns -> {"Connected", "Connecting"}]
-  /\ gen \in [Conns -> Nat]
-  /\ link \in [Conns -> Seq(LinkRec)]
-  /\ \A k \in Conns : gen[k] \in 1..Len(link[k])
-  /\ clr \in [Conns -> ClrRec]
-  /\ produced \in [Calls -> SUBSET Vals]
-
-\* an answer to a call carries a value produced for that call (prod: the server's history)
-PktOKp(p, prod) == (p.t = "ans" /\ p.id \in Calls) => p.v \in prod[p.id]
-RecOK(l, prod)  == PktOKp(l.rh, prod) /\ \A j \in 1..Len(l.in) : PktOKp(l.in[j], prod)
-LinkOK(lk, prod) == \A k \in Conns : \A g \in 1..Len(lk[k]) : RecOK(lk[k][g], prod)
-ClrOK(cl, prod) == \A k \in Conns : /\ PktOKp(cl[k].pkt, prod)
-                                    /\ cl[k].st = "found" => cl[k].pkt.t = "ans" /\ cl[k].pkt.id \in Calls
-DataInv == /\ LinkOK(link, produced) /\ ClrOK(clr, produced) /\ ChanOwn /\ OwnAnswer
-
-Found(k, c) == clr[k].st = "found" /\ clr[k].pkt.id = c
-RI1 == \A c \in Calls : Len(chans[c]) <= 1
-RI2 == \A c \in Calls : pc[c] = "start" => c \notin queries /\ chans[c] = <<>> /\ \A k \in Conns : ~Found(k, c)
-RI3 == \A c \in queries : chans[c] = <<>> /\ \A k \in Conns : ~Found(k, c)
-RI4 == \A k \in Conns : clr[k].st = "found" => clr[k].pkt.id \notin queries /\ chans[clr[k].pkt.id] = <<>>
-RI5 == \A k1, k2 \in Conns : clr[k1].st = "found" /\ clr[k2].st = "found" /\ clr[k1].pkt.id = clr[k2].pkt.id => k1 = k2
-RegInv == RI1 /\ RI2 /\ RI3 /\ RI4 /\ RI5 /\ RegisteredWhileWaiting
-
-Inv == TypeInv /\ DataInv /\ RegInv
-
-Mono(p1, p2) == \A c \in Calls : p1[c] \subseteq p2[c]
+EXTENDS LiteClient_Inv, SequenceTheorems, TLAPS
 
 (* ================================================================== basics *)
 LEMMA NoPktType == NoPkt \in Pkts /\ NoPkt.t = "none"
